@@ -305,6 +305,19 @@ pub fn run(cx: &mut Cx) {
         if rng.bool() {
             tpls.reverse(); // registration order must not matter
         }
+        // the entry may also be a one-off string (`render_str`) calling into the registered templates: it is then known
+        // to the reports as `__tera_one_off`
+        let one_off = class == "render" && placement >= 3 && rng.chance(1, 4);
+        let entry_src = tpls.iter().find(|(n, _)| n == "entry.html").map(|x| x.1.clone()).unwrap_or_default();
+        let entry_name = if one_off { "__tera_one_off" } else { "entry.html" };
+        if one_off {
+            for t in tpls.iter_mut() {
+                if t.0 == "entry.html" {
+                    t.0 = "__tera_one_off".into();
+                }
+            }
+            cx.count("faults_reached_from_one_off_strings", 1);
+        }
         let src = tpls.iter().find(|(n, _)| n == faulty_name).unwrap().1.clone();
         let mut ctx = Context::new();
         ctx.insert("good", &std::collections::BTreeMap::from([("b", 5)]));
@@ -319,8 +332,9 @@ pub fn run(cx: &mut Cx) {
         let replay = json!({"templates": tpls, "faulty_template": faulty_name, "fault": fault, "fault_offset": off, "placement": placement, "class": class});
         let res = guard(|| {
             let mut t = Tera::default();
-            match t.add_raw_templates(tpls.clone()) {
+            match t.add_raw_templates(tpls.iter().filter(|(n, _)| n != "__tera_one_off").cloned().collect::<Vec<_>>()) {
                 Err(e) => Err(e),
+                Ok(()) if one_off => t.render_str(&entry_src, &ctx, true).map(|_| ()),
                 Ok(()) => t.render(entry, &ctx).map(|_| ()),
             }
         });
@@ -364,8 +378,8 @@ pub fn run(cx: &mut Cx) {
                             }
                             // every call-site note names the calling template, innermost first
                             let callers: Vec<&str> = match placement {
-                                3 | 4 => vec!["entry.html"],
-                                5 | 6 => vec!["inc.html", "entry.html"],
+                                3 | 4 => vec![entry_name],
+                                5 | 6 => vec!["inc.html", entry_name],
                                 _ => vec![],
                             };
                             let mut rest = d.as_str();
